@@ -285,6 +285,24 @@ func c18Run(c *fw.Ctx, b fw.Batch) {
 		}
 		return
 	}
+	if b.Idx == 0 {
+		// member names whose GNU long-name / pax path record fills whole 512-byte records
+		// (name + NUL = 512 → 511 bytes; "NNN path=…\n" = 512 → 502 bytes; the same for 1024)
+		for _, f := range []tar.Format{tar.FormatGNU, tar.FormatPAX} {
+			for _, n := range []int{101, 255, 256, 500, 501, 502, 503, 510, 511, 512, 513, 1012, 1013, 1014, 1022, 1023, 1024, 1025} {
+				var buf bytes.Buffer
+				w := tar.NewWriter(&buf)
+				name := strings.Repeat("dir/", n/4+2)[:n-5] + "f.txt"
+				if w.WriteHeader(&tar.Header{Name: name, Mode: 0o644, Size: 600, Format: f, ModTime: time.Unix(1700000000, 0)}) != nil {
+					continue
+				}
+				w.Write(bytes.Repeat([]byte("member data "), 50))
+				w.Close()
+				c18Forward(c, t, "long-name", buf.Bytes(), fmt.Sprintf("fmt=%v|namelen=%d", f, n))
+				c.Count("long_name_archives", 1)
+			}
+		}
+	}
 	for i := 0; i < b.N; i++ {
 		a, tag := c18Archive(r)
 		if c18Forward(c, t, "archive", a, tag) {
